@@ -19,3 +19,19 @@ impl<'a, T: KeyView> IntoIterator for &'a HashSet<T> {
 impl<T: KeyView + std::hash::Hash + Eq> FromIterator<T> for HashSet<T> {
     fn from_iter<I: IntoIterator<Item = T>>(iter: I) -> Self { HashSet { inner: iter.into_iter().collect() } }
 }
+// T5 wrapper: `Iterator::chain` is a provided method vstd does not specify.  `.chain(` is renamed to `.vp_chain(`; the
+// external body IS the call to the real method, driven to its end (which the `.collect()` that follows does).  ASSUMED:
+// first the elements of the receiver in order, then *some* duplicate-free enumeration of the set (hash order).
+pub trait VpChainExt<T: KeyView>: Sized {
+    fn vp_chain(self, other: HashSet<T>) -> (r: std::vec::IntoIter<T>);
+}
+impl<T: KeyView> VpChainExt<T> for std::vec::IntoIter<T> {
+    #[verifier::external_body]
+    fn vp_chain(self, other: HashSet<T>) -> (r: std::vec::IntoIter<T>)
+        ensures r.obeys_prophetic_iter_laws(), r.decrease() is Some,
+            r.remaining().len() == self.remaining().len() + other.s().len(),
+            forall|i: int| #![trigger r.remaining()[i]] #![trigger self.remaining()[i]] 0 <= i < self.remaining().len() ==> r.remaining()[i] == self.remaining()[i],
+            forall|i: int| self.remaining().len() <= i < r.remaining().len() ==> other.s().contains((#[trigger] r.remaining()[i]).kview()),
+            forall|k: T::KV| other.s().contains(k) ==> exists|i: int| self.remaining().len() <= i < r.remaining().len() && #[trigger] r.remaining()[i].kview() == k,
+    { self.chain(other.inner).collect::<Vec<T>>().into_iter() }
+}
